@@ -346,7 +346,7 @@ Section Alloc.
   Hypothesis Hlim : n' + need < sector_limit.
   Let u2 := mark u1 n' (N.to_nat need) true.
   Let o' := n' * 256 + need.
-  Let ws := [ mkwr (4 * i) (be 4 o'); mkwr (4096 + 4 * i) (be 4 (now mod 2^32));
+  Let ws := [ mkwr (4096 + 4 * i) (be 4 (now mod 2^32)); mkwr (4 * i) (be 4 o');
               mkwr (4096 * n') (be 4 (lenN d)); mkwr (4096 * n' + 4) d ].
 
   Lemma alloc_need : 1 <= need /\ lenN d + 4 <= 4096 * need.
@@ -416,10 +416,10 @@ Section Alloc.
   Proof.
     destruct alloc_need as [N1 N2]. pose proof alloc_n'_ge2 as N3.
     unfold ws. apply Forall_4; intros j Hj Hji; split.
-    - unfold leaves. rewrite wpos_mkwr, wend_mkwr, be4_lenN. lia.
+    - unfold leaves. rewrite wpos_mkwr, wend_mkwr, be4_lenN. right. lia.
     - intros Hoj. destruct (R_entry s m j HR Hj Hoj) as [B1 B2].
       unfold leaves. rewrite wpos_mkwr, wend_mkwr, be4_lenN. left. lia.
-    - unfold leaves. rewrite wpos_mkwr, wend_mkwr, be4_lenN. right. lia.
+    - unfold leaves. rewrite wpos_mkwr, wend_mkwr, be4_lenN. lia.
     - intros Hoj. destruct (R_entry s m j HR Hj Hoj) as [B1 B2].
       unfold leaves. rewrite wpos_mkwr, wend_mkwr, be4_lenN. left. lia.
     - unfold leaves. rewrite wpos_mkwr, wend_mkwr, be4_lenN. right. lia.
@@ -456,6 +456,7 @@ Section Alloc.
       intros j Hj. destruct (N.eq_dec j i) as [->|Hji].
       + rewrite getN_set_same. unfold ws. cbn [rev app]. unfold word_at.
         rewrite !bytes_at_cons_skip by (rewrite wpos_mkwr; right; lia).
+        rewrite bytes_at_cons_skip by (rewrite wend_mkwr, be4_lenN; left; lia).
         rewrite <- (be4_len (now mod 2^32)). rewrite bytes_at_cons_exact. apply unbe_be4.
         apply N.mod_lt. discriminate.
       + rewrite getN_set_other by exact Hji. rewrite <- (R_ts s m HR j Hj).
